@@ -13,15 +13,15 @@ S(x) == {x[i] : i \in 1..Len(x)}
 DefsOf(d) == [i \in 1..Len(d) |-> [name |-> d[i].name, types |-> S(d[i].types), allow |-> d[i].allow]]
 
 TInit == /\ conf = [defs |-> <<>>, groups |-> <<>>, lists |-> <<>>] /\ present = {} /\ call = NoCall
-         /\ running = "none" /\ pending = NoWrite /\ bad = {} /\ l = 1 /\ mc = 0
+         /\ running = "none" /\ pending = NoWrite /\ owed = 0 /\ bad = {} /\ l = 1 /\ mc = 0
 TReset == /\ Is("Reset") /\ Adv
           /\ conf' = [defs |-> DefsOf(Ev.defs), groups |-> Ev.groups, lists |-> Ev.lists]
-          /\ present' = S(Ev.present) /\ call' = NoCall /\ running' = "none" /\ pending' = NoWrite /\ bad' = {}
+          /\ present' = S(Ev.present) /\ call' = NoCall /\ running' = "none" /\ pending' = NoWrite /\ owed' = 0 /\ bad' = {}
 TCall == Is("Call") /\ Adv /\ BeginCall(Ev.type, Ev.all)
 TStart == Is("Start") /\ Adv /\ HookStart(Ev.hook)
 TEnd == Is("End") /\ Adv /\ HookEnd(Ev.hook, Ev.exit, Ev.envs, Ev.role, Ev.obs, Ev.exp)
 TWrite == Is("Write") /\ Adv /\ FileWritten(Ev.path)
-TEndRun == Is("EndRun") /\ Adv /\ EndRun
+TEndRun == Is("EndRun") /\ Adv /\ EndRunWith(Ev.ok)
 TNext == TReset \/ TCall \/ TStart \/ TEnd \/ TWrite \/ TEndRun
 Report == (bad' \cap Enforce # {}) => PrintT(<<"BAD", bad' \cap Enforce, l>>)
 TSpec == TInit /\ [][TNext /\ Report]_tvars
